@@ -146,8 +146,9 @@ mod tests {
             match sender.try_send_to(b"litep2p", destination, src_ip) {
                 Ok(()) => break,
                 // `sendmsg` hit a full send buffer, wait for the socket to drain
-                Err(e) if e.kind() == io::ErrorKind::WouldBlock =>
-                    sender.socket.writable().await.unwrap(),
+                Err(e) if e.kind() == io::ErrorKind::WouldBlock => {
+                    sender.socket.writable().await.unwrap()
+                }
                 Err(e) => panic!("send failed: {e}"),
             }
         }
